@@ -29,7 +29,8 @@ for l in open("/verif/properties.jsonl"):
     j = json.loads(l)
     for f in j["anchors"]["files"]:
         props_of.setdefault(f, []).append(j["id"])
-EXTRA = {"penguin-mux/src/hashmap.rs": ["C07", "C01"], "penguin-mux/src/timing.rs": ["C16", "C19"], "cow-bytes/src/lib.rs": ["C20", "C09"],
+EXTRA = {"penguin/src/client/handle_remote/mod.rs": ["C01", "C19"], "penguin/src/server/mod.rs": ["C17", "C14", "C01"], "penguin/src/client/handle_remote/tproxy.rs": ["C01"],
+         "penguin-mux/src/hashmap.rs": ["C07", "C01"], "penguin-mux/src/timing.rs": ["C16", "C19"], "cow-bytes/src/lib.rs": ["C20", "C09"],
          "penguin/src/client/maybe_retryable.rs": ["C19"], "penguin/src/client/handle_remote/common.rs": ["C01", "C19"],
          "penguin/src/tls/mod.rs": ["C17"], "penguin/src/client/ws_connect.rs": ["C17", "C19"]}
 
